@@ -2,6 +2,7 @@ package rules
 
 import (
 	"fmt"
+	"go/types"
 	"sort"
 	"strings"
 
@@ -116,7 +117,9 @@ func checkStackDiscipline(p *core.Prog, r *core.Result, ops *opTable, dt *decode
 			emAt[e.Instr] = append(emAt[e.Instr], e)
 		}
 	}
-	// summaries: net pushes of the encoder's helper functions
+	// summaries: net pushes of the encoder's functions. The functions that encode one value are the roots (net 1,
+	// verified below); every other method of the encoder they call is summarised from its own body: an unconditional
+	// net effect, or - for a helper returning a bool - one effect per constant result (`if e.encodeRef(x) { return }`).
 	type summ struct {
 		fn  *ssa.Function
 		net int
@@ -131,6 +134,14 @@ func checkStackDiscipline(p *core.Prog, r *core.Result, ops *opTable, dt *decode
 			fns = append(fns, summ{f, n})
 		}
 	}
+	type helperSumm struct {
+		ok         bool
+		cond       bool // effect depends on the boolean result
+		net        int
+		netT, netF int
+	}
+	helperCache := map[*ssa.Function]*helperSumm{}
+	var run func(fn *ssa.Function, want *int, report bool) (map[*ssa.Return]absStack, bool)
 	netOf := func(f *ssa.Function) (int, bool) {
 		for _, s := range fns {
 			if s.fn == f {
@@ -139,16 +150,80 @@ func checkStackDiscipline(p *core.Prog, r *core.Result, ops *opTable, dt *decode
 		}
 		return 0, false
 	}
+	summarize := func(h *ssa.Function) *helperSumm {
+		if hs, ok := helperCache[h]; ok {
+			return hs
+		}
+		hs := &helperSumm{}
+		helperCache[h] = hs // (recursion guard: an unfinished summary is "not ok")
+		if h == nil || h.Blocks == nil || h.Signature.Recv() == nil || recvNamed(h) != "Encoder" || h.Pkg == nil || h.Pkg.Pkg.Path() != pkgPickle {
+			return hs
+		}
+		// does it (transitively) emit at all? otherwise: no effect
+		rets, fine := run(h, nil, false)
+		if !fine {
+			return hs
+		}
+		isBool := h.Signature.Results().Len() == 1 && func() bool {
+			b, ok := h.Signature.Results().At(0).Type().Underlying().(*types.Basic)
+			return ok && b.Kind() == types.Bool
+		}()
+		first := true
+		haveT, haveF := false, false
+		uniform := true
+		for ret, st := range rets {
+			if len(st) != 1 {
+				return hs // leaves an open frame
+			}
+			n := st[0]
+			if first {
+				hs.net = n
+				first = false
+			} else if hs.net != n {
+				uniform = false
+			}
+			if isBool {
+				if b, isConst := core.ConstBool(core.RetVals(ret)[0]); isConst {
+					if b {
+						if haveT && hs.netT != n {
+							return hs
+						}
+						hs.netT, haveT = n, true
+					} else {
+						if haveF && hs.netF != n {
+							return hs
+						}
+						hs.netF, haveF = n, true
+					}
+				} else if !uniform {
+					return hs
+				}
+			}
+		}
+		if uniform {
+			hs.ok = true
+			return hs
+		}
+		if isBool && haveT && haveF {
+			hs.ok, hs.cond = true, true
+			return hs
+		}
+		return hs
+	}
 	r.Floor("R7.9", len(fns), 2, "encoder functions under stack verification")
-	for _, s := range fns {
-		fn := s.fn
+	run = func(fn *ssa.Function, want *int, report bool) (map[*ssa.Return]absStack, bool) {
 		in := map[*ssa.BasicBlock]absStack{fn.Blocks[0]: {0}}
 		work := []*ssa.BasicBlock{fn.Blocks[0]}
 		reported := map[string]bool{}
+		fine := true
+		rets := map[*ssa.Return]absStack{}
 		bad := func(construct string, at ssa.Instruction, format string, args ...any) {
+			fine = false
 			if !reported[construct] {
 				reported[construct] = true
-				r.Bad("R7.9", construct, p.InstrPos(at), format, args...)
+				if report {
+					r.Bad("R7.9", construct, p.InstrPos(at), format, args...)
+				}
 			}
 		}
 		nJoin := 0
@@ -157,6 +232,8 @@ func checkStackDiscipline(p *core.Prog, r *core.Result, ops *opTable, dt *decode
 			work = work[1:]
 			st := in[b].clone()
 			failed := false
+			var condCall *ssa.Call
+			var condT, condF int
 			for _, ins := range b.Instrs {
 				if es, ok := emAt[ins]; ok {
 					// opcode-parameterised emitters: all candidate opcodes must have the same effect
@@ -183,21 +260,28 @@ func checkStackDiscipline(p *core.Prog, r *core.Result, ops *opTable, dt *decode
 				if c, ok := ins.(*ssa.Call); ok {
 					if cal := core.Callee(c); cal != nil {
 						if n, ok := netOf(cal); ok {
-							var why string
-							st, why = st.apply(stackEffect{Pushes: n})
-							_ = why
+							st, _ = st.apply(stackEffect{Pushes: n})
+						} else if hs := summarize(cal); hs.ok {
+							if hs.cond {
+								condCall, condT, condF = c, hs.netT, hs.netF
+							} else if hs.net != 0 {
+								st, _ = st.apply(stackEffect{Pushes: hs.net})
+							}
 						}
 					}
 				}
 				if ret, ok := ins.(*ssa.Return); ok {
-					want := absStack{s.net}
-					if !st.eq(want) {
-						types := assertedTypes(p, ret)
-						tag := "default"
-						if len(types) > 0 {
-							tag = shortType(types[len(types)-1])
+					rets[ret] = st.clone()
+					if want != nil {
+						w := absStack{*want}
+						if !st.eq(w) {
+							types := assertedTypes(p, ret)
+							tag := "default"
+							if len(types) > 0 {
+								tag = shortType(types[len(types)-1])
+							}
+							bad(fmt.Sprintf("%s#stack-at-return:%s", fname(fn), tag), ret, "encoding one value leaves %s on the decoder's stack instead of %s: when the value is nested in another container the surplus becomes extra elements of the enclosing container", st, w)
 						}
-						bad(fmt.Sprintf("%s#stack-at-return:%s", fname(fn), tag), ret, "encoding one value leaves %s on the decoder's stack instead of %s: when the value is nested in another container the surplus becomes extra elements of the enclosing container", st, want)
 					}
 				}
 			}
@@ -207,32 +291,45 @@ func checkStackDiscipline(p *core.Prog, r *core.Result, ops *opTable, dt *decode
 			if _, isPanic := b.Instrs[len(b.Instrs)-1].(*ssa.Panic); isPanic {
 				continue
 			}
-			for _, succ := range b.Succs {
+			for si, succ := range b.Succs {
+				out := st
+				if condCall != nil {
+					iff, isIf := b.Instrs[len(b.Instrs)-1].(*ssa.If)
+					if isIf && iff.Cond == ssa.Value(condCall) {
+						n := condT
+						if si == 1 {
+							n = condF
+						}
+						out, _ = st.clone().apply(stackEffect{Pushes: n})
+					} else {
+						bad(fname(fn)+"#conditional-helper:"+core.Callee(condCall).Name(), condCall, "the stack effect of %s depends on its boolean result, which is not branched on directly here: not verified", core.Callee(condCall).Name())
+					}
+				}
 				old, seen := in[succ]
 				if !seen {
-					in[succ] = st.clone()
+					in[succ] = out.clone()
 					work = append(work, succ)
 					continue
 				}
 				nJoin++
-				if !old.eq(st) {
+				if !old.eq(out) {
 					types := assertedTypes(p, succ.Instrs[0])
 					tag := "default"
 					if len(types) > 0 {
 						tag = shortType(types[len(types)-1])
 					}
-					bad(fmt.Sprintf("%s#stack-join:%s", fname(fn), tag), succ.Instrs[0], "paths reach this point with different operand-stack heights (%s vs %s): one path pushes a value the other does not, so the decoder's stack depends on the path taken (e.g. the number of 1000-element batches)", old, st)
+					bad(fmt.Sprintf("%s#stack-join:%s", fname(fn), tag), succ.Instrs[0], "paths reach this point with different operand-stack heights (%s vs %s): one path pushes a value the other does not, so the decoder's stack depends on the path taken (e.g. the number of 1000-element batches)", old, out)
 				}
 			}
 		}
-		keys := make([]string, 0, len(reported))
-		for k := range reported {
-			keys = append(keys, k)
+		if report && len(reported) == 0 && want != nil {
+			r.OK("R7.9", fname(fn)+"#stack-verified", p.Pos(fn.Pos()), "operand-stack heights agree at all %d joins and every return leaves exactly %d value(s), using the stack effects derived from the decoder's cases", nJoin, *want)
 		}
-		sort.Strings(keys)
-		if len(keys) == 0 {
-			r.OK("R7.9", fname(fn)+"#stack-verified", p.Pos(fn.Pos()), "operand-stack heights agree at all %d joins and every return leaves exactly %d value(s), using the stack effects derived from the decoder's cases", nJoin, s.net)
-		}
+		return rets, fine
+	}
+	for _, s := range fns {
+		n := s.net
+		run(s.fn, &n, true)
 	}
 	// Encode: encode(x) then STOP which pops the single value
 	if stop, ok := ops.byName["opSTOP"]; ok {
@@ -422,4 +519,120 @@ func checkInPlaceIdentity(p *core.Prog, r *core.Result, ops *opTable, dt *decode
 		}
 	}
 	r.Floor("R7.11", n, 2, "in-place decoder cases")
+}
+
+
+// checkMemoIdentity implements R7.12: the encoder's memo is keyed by the identity of the value being encoded. A key
+// constructed inside the encoder from a value's contents (e.g. starlark.String(s) for the text of both a String and a
+// Bytes) makes values of different types share one memo entry: the second one is written as a back-reference to the
+// first and decodes with the wrong type.
+func checkMemoIdentity(p *core.Prog, r *core.Result) {
+	memoize := p.Func("pickle", "Encoder", "memoize")
+	memoized := p.Func("pickle", "Encoder", "memoized")
+	if memoize == nil || memoized == nil {
+		r.Unk("R7.12", "anchor:pickle.Encoder.memoize/memoized", "-", "not found")
+		return
+	}
+	// functions that take a value and hand it (unchanged) to the memo: memoize, memoized and their forwarders
+	tracked := map[*ssa.Function]int{memoize: 1, memoized: 1} // function -> index of the value parameter
+	strip := func(v ssa.Value) ssa.Value {
+		for {
+			switch x := v.(type) {
+			case *ssa.MakeInterface:
+				if _, isTA := x.X.(*ssa.TypeAssert); isTA {
+					v = x.X
+					continue
+				}
+				if e, isE := x.X.(*ssa.Extract); isE {
+					if _, isTA := e.Tuple.(*ssa.TypeAssert); isTA {
+						v = e.Tuple
+						continue
+					}
+				}
+				return v
+			case *ssa.ChangeInterface:
+				v = x.X
+			case *ssa.TypeAssert:
+				v = x.X
+			default:
+				return v
+			}
+		}
+	}
+	for changed := true; changed; {
+		changed = false
+		for _, fn := range p.ModuleFuncs() {
+			if fn.Pkg == nil || fn.Pkg != memoize.Pkg || tracked[fn] != 0 {
+				continue
+			}
+			for _, c := range core.Calls(fn) {
+				idx, ok := tracked[core.Callee(c)]
+				if !ok || idx >= len(c.Common().Args) {
+					continue
+				}
+				if prm, isPrm := c.Common().Args[idx].(*ssa.Parameter); isPrm {
+					// a pure forwarder: the parameter is used for nothing but being handed to the memo (a function that
+					// also inspects or encodes the value is an encoder of that value, not a memo accessor)
+					pure := true
+					for _, ref := range *prm.Referrers() {
+						if _, dbg := ref.(*ssa.DebugRef); dbg {
+							continue
+						}
+						rc, isCall := ref.(ssa.CallInstruction)
+						if !isCall {
+							pure = false
+							continue
+						}
+						if _, isTracked := tracked[core.Callee(rc)]; !isTracked {
+							pure = false
+						}
+					}
+					if pi := paramIndex(fn, prm); pi >= 0 && tracked[fn] == 0 && pure {
+						tracked[fn] = pi
+						changed = true
+					}
+				}
+			}
+		}
+	}
+	n := 0
+	for _, fn := range p.ModuleFuncs() {
+		if fn.Pkg == nil || fn.Pkg != memoize.Pkg {
+			continue
+		}
+		k := 0
+		for _, c := range core.Calls(fn) {
+			idx, ok := tracked[core.Callee(c)]
+			if !ok || idx >= len(c.Common().Args) {
+				continue
+			}
+			n++
+			k++
+			construct := fmt.Sprintf("%s#memo-key-%d", fname(fn), k)
+			a := strip(c.Common().Args[idx])
+			constructed := ""
+			if mi, isMI := a.(*ssa.MakeInterface); isMI {
+				switch x := mi.X.(type) {
+				case *ssa.Convert:
+					constructed = "a conversion of " + shortType(x.X.Type()) + " to " + shortType(x.Type())
+				case *ssa.ChangeType:
+					if _, basic := x.X.Type().Underlying().(*types.Basic); basic {
+						if _, named := x.X.Type().(*types.Named); !named {
+							constructed = "a conversion of " + shortType(x.X.Type()) + " to " + shortType(x.Type())
+						}
+					}
+				case *ssa.Const:
+					constructed = "a constant"
+				case *ssa.Call:
+					constructed = "the result of " + x.Call.Value.Name()
+				}
+			}
+			if constructed != "" {
+				r.Bad("R7.12", construct, p.InstrPos(c.(ssa.Instruction)), "the memo is consulted or filled under a key built inside the encoder (%s) instead of the value being encoded: values of different types with equal contents (a string and a bytes value, a value and a host pickler's module/name string) then share one memo entry, the later one is written as a back-reference and decodes as the earlier one's type", constructed)
+			} else {
+				r.OK("R7.12", construct, p.InstrPos(c.(ssa.Instruction)), "keyed by the value being encoded itself")
+			}
+		}
+	}
+	r.Floor("R7.12", n, 3, "memo accesses of the encoder")
 }
